@@ -1,0 +1,20 @@
+//go:build verif
+
+// Machine-checked contracts for package flows/actions (comment-only; read by /verif/gocv).
+
+package actions
+
+// ---- C18: text, attachments and quick replies are localized independently by the fallback chain,
+// and the message language is the language actually used for the text (else attachments, else quick replies)
+
+//@ func (a *baseAction) evaluateMessage
+//@   requires a != nil && !isnil(run) && RunRep(run.(*runs.run))
+//@   let r := run.(*runs.run)
+//@   ensures [text_pick] exists nat []string :: len(nat) == 1 && gotText(r, languages, uuids.UUID(a.UUID_), "text", nat, localizedText, txtLang)
+//@   ensures [att_pick] gotText(r, languages, uuids.UUID(a.UUID_), "attachments", actionAttachments, translatedAttachments, attLang)
+//@   ensures [qr_pick] gotText(r, languages, uuids.UUID(a.UUID_), "quick_replies", actionQuickReplies, translatedQuickReplies, qrsLang)
+//@   ensures [lang] result1 == (localizedText[0] != "" ? txtLang : (len(translatedAttachments) > 0 ? attLang : (len(translatedQuickReplies) > 0 ? qrsLang : "")))
+//@ loop 1
+//@   invariant true
+//@ loop 2
+//@   invariant true
